@@ -76,6 +76,27 @@ claim("C16",
       "Lean 4 proof (tables regenerated by translator, decide; induction for find-nearest) + correspondence + effect oracle",
       "DESIGN.md §7 C16")
 
+claim("C08",
+      "Lean theorems for every text and every \\w class about an exact model of smart_quotes (tag segmentation → "
+      "quote-pair scanner → apostrophe rule): Q_POINTWISE (same length; only ' → ‘/’ and \" → “/”), Q_LENGTH, "
+      "Q_OTHER_CHARS, Q_TAGS (tag spans verbatim, pairing never crosses a tag), Q_PARA; Q_IDEM_false witness. Model "
+      "tied by equality on all strings ≤4 over a 16-symbol alphabet and ~40k sampled longer ones; document level: "
+      "reformat_text with smartquotes on vs off — same length and line breaks, pointwise relation, protected spans untouched.",
+      COMMON_NOTE + "`\\w` is a parameter. The mapping back into the Marko tree (rewrite_text_across_inlines) and inline "
+      "parsing are covered by the document-level oracle, not by a theorem.",
+      "Lean 4 proof (pointwise relation through each scanner stage) + model/implementation correspondence",
+      "DESIGN.md §7 C08")
+claim("C09",
+      "Lean theorems for every text and \\w class about an exact model of ellipses(): E_SHAPE (output = input after "
+      "deleting whitespace and spelling … as ...), E_NO_DOTS, E_TAGS (matches inside template tags are emitted "
+      "verbatim). Model tied by equality on all strings ≤5 over a 10-symbol alphabet (+ length 6 over 6 symbols) and "
+      "~30k sampled longer ones; idempotence checked exhaustively on the same strings for model and code (a test, "
+      "labelled as such); document level: ellipses on vs off, protected spans, second pass.",
+      COMMON_NOTE + "E_IDEM is not a theorem (bounded-exhaustive test only). Document-level idempotence has one known "
+      "finding (escape introduced by wrapping creates a text-node boundary).",
+      "Lean 4 proof (squash invariant through the scanner) + model/implementation correspondence",
+      "DESIGN.md §7 C09")
+
 NOT_YET = {
 }
 
